@@ -35,6 +35,7 @@ type evidence struct {
 	violationNotes []string
 	inconclusive   []string
 	reach          int
+	unconfirmedRaces []string
 }
 
 func newEvidence(p *Prop, tier string, seed int) *evidence {
@@ -115,6 +116,7 @@ func (e *evidence) write() {
 		"runs":                          e.runs,
 		"known_findings_observed":       e.knownSeen,
 		"violation_notes":               e.violationNotes,
+		"race_candidates_unconfirmed_by_race_detector": e.unconfirmedRaces,
 		"inconclusive":                  e.inconclusive,
 		"explanation":                   "states = guarded basic-block executions of the SSA built from the working tree (each stands for all paths reaching that block in that unrolling); transitions = SSA instructions executed symbolically; every obligation is one SMT query (guard AND NOT condition) decided by cvc5 (z3-new as fallback and cross-check); traces_validated_against_impl = witness models replayed natively through the same harness against the real build with all observed values equal to the executor's prediction",
 	}
